@@ -282,6 +282,31 @@ def run(pm, ctx):
                               'hook' % (f.short, n.attr),
                           key='C13-R3|%s|direct-%s' % (f.qualname, n.attr))
     ctx.floor('C13-R3', n_calls, 9, 'references to encode_<kind> methods')
+    # the validator handed to encode_sub is the object found in the reflection table (the one
+    # that carries _redact), never one already unwrapped from it in the same function
+    from ..dataflow import reaching
+    n_sub = 0
+    for f in ser_funcs:
+        if not f.qualname.startswith(ENC + '.encode_'):
+            continue
+        for c in own_nodes(f.node):
+            if not (isinstance(c, ast.Call) and call_name(c) == 'encode_sub' and c.args and
+                    isinstance(c.args[0], ast.Name)):
+                continue
+            n_sub += 1
+            nm = c.args[0].id
+            vals, _live = reaching(f.node, nm, c)
+            unwrapped = [st.lineno for kind, v, st in vals
+                         if isinstance(v, ast.Attribute) and isinstance(v.value, ast.Name) and
+                         v.value.id == nm]
+            ctx.check('C13-R3', not unwrapped,
+                      '%s passes the table validator %s to encode_sub before any unwrapping' % (
+                          f.short, nm), '%s:%d' % (f.module.relpath, c.lineno),
+                      msg='%s can call encode_sub with %s already unwrapped (rebinding at line '
+                          '%s): a redactor attached to the wrapping validator is skipped'
+                          % (f.short, nm, unwrapped),
+                      key='C13-R3|%s|unwrapped-%s' % (f.qualname, nm))
+    ctx.floor('C13-R3', n_sub, 2, 'encode_sub calls on a named validator')
     # recursive encodings go through self.encode_sub
     for name, min_calls in (('encode_list', 1), ('encode_map', 2), ('encode_nullable', 1),
                             ('encode_struct', 1), ('encode_union', 1)):
@@ -469,6 +494,44 @@ def run(pm, ctx):
                   '%s: chaining decided by membership in that set (or public)' % g.short, g.loc,
                   msg='caller_in_parent no longer uses the ancestor caller set',
                   key='C13-R5|%s|uses' % g.qualname)
+
+    # every permission the caller holds is consulted: a loop over caller_permissions.permissions
+    # is left early only on a positive match, never because one permission has no table
+    n_loops = 0
+    for mod in ('stone.backends.python_rsrc.stone_base',
+                'stone.backends.python_rsrc.stone_serializers',
+                'stone.backends.python_rsrc.stone_validators'):
+        for f in pm.funcs_in(mod):
+            pif = path_info(f.node)
+            for lp in own_nodes(f.node):
+                if not (isinstance(lp, ast.For) and
+                        unparse(lp.iter).endswith('caller_permissions.permissions')):
+                    continue
+                n_loops += 1
+                loop_atoms = {id(e) for e, p in pif.at(lp)}
+                bad = []
+                for n in own_nodes(lp):
+                    if isinstance(n, (ast.Break, ast.Return, ast.Raise)):
+                        own = [(e, p) for e, p in pif.at(n) if id(e) not in loop_atoms]
+                        match = any(p and any(isinstance(x, ast.Compare) and
+                                              isinstance(x.ops[0], ast.In) for x in ast.walk(e))
+                                    for e, p in own)
+                        miss = isinstance(n, ast.Raise) and any(
+                            (not p) and any(isinstance(x, ast.Call) and call_name(x) == 'hasattr'
+                                            for x in ast.walk(e)) for e, p in own)
+                        if isinstance(n, ast.Break) or not (match or miss):
+                            bad.append('%s at line %d' % (type(n).__name__.lower(), n.lineno))
+                ctx.check('C13-R2', not bad, '%s: the loop over the caller\'s permissions ends '
+                          'early only on a match' % f.short,
+                          '%s:%d' % (f.module.relpath, lp.lineno),
+                          msg='%s leaves the loop over caller_permissions.permissions early (%s) '
+                              'without a match: permissions listed after a permission the type '
+                              'does not know are ignored' % (f.short, ', '.join(bad)),
+                          key='C13-R2|%s|all-permissions' % f.qualname)
+    ctx.floor('C13-R2', n_loops, 5, 'loops over caller_permissions.permissions')
+    ctx.import_rules(pm, 'C08', {'C08-R4'}, 'C13-R6',
+                     'a reference to an alias is emitted as the alias validator (which carries the '
+                     'alias\'s redactor), never inlined (shared with C08-R4)')
 
 
 def _parents(node):
